@@ -33,6 +33,9 @@ type c11Runner struct {
 	callID    []uint32
 	started   []bool
 	held      []bool // Write entered, not yet returned
+	cheld     []bool // Write of the Cancel message entered, not yet returned
+	cancelCh  []chan struct{}
+	cancelled []bool
 	wrote     []bool // Write returned success
 	subEv     []chan []byte
 	subReg    []bool
@@ -100,14 +103,16 @@ func (r *c11Runner) missed() {
 }
 
 func (r *c11Runner) startCall(c int) {
-	r.nextID += 2
-	id := r.nextID
-	r.callID[c] = id
+	if !r.cancelled[c] { // a call cancelled beforehand returns before drawing an id
+		r.nextID += 2
+		r.callID[c] = r.nextID
+	}
 	r.started[c] = true
 	ch := r.callRes[c]
 	cl := r.cl
+	cancel := r.cancelCh[c]
 	go func() {
-		p, err := cl.Call(nil, c11Service, 1, uint32(100+c), []byte{0xab, byte(c)})
+		p, err := cl.Call(cancel, c11Service, 1, uint32(100+c), []byte{0xab, byte(c)})
 		ch <- c11CallRes{p, err, time.Now()}
 	}()
 }
@@ -126,6 +131,10 @@ func (r *c11Runner) failHeld() {
 		if r.held[c] {
 			r.held[c] = false
 			r.lab("LCallSendFail %d", c)
+		}
+		if r.cheld[c] {
+			r.cheld[c] = false
+			r.lab("LCallCancelSend %d", c)
 		}
 	}
 }
@@ -177,13 +186,13 @@ func (r *c11Runner) fire() {
 	case "wpart":
 		c := r.sc.script[r.f.pos-1].idx
 		st.mu.Lock()
-		w := st.pendingWrite(r.callID[c])
+		w := st.pendingWrite(r.callID[c], net.Call)
 		n := 0
 		if w != nil {
 			n = len(w.buf) / 2
 		}
 		st.mu.Unlock()
-		st.releaseWrite(r.callID[c], n, errC11Fault)
+		st.releaseWrite(r.callID[c], net.Call, n, errC11Fault)
 		st.kill(errC11Fault, false)
 		r.lab("LConnDie")
 		r.lab("LReadFail")
